@@ -92,7 +92,8 @@ func aliasingConfig(seed uint64, i int, root string) (*gen.Case, error) {
 	s.Conflicts = []string{"c2", "c2", "c1", "c3"}
 	s.Recommends = []string{"r9", "r1"}
 	s.Suggests = []string{"s9", "s1"}
-	s.Replaces = []string{"old-z", "old-z", "old-a", "old-b"}
+	s.Replaces = []string{"old-z", "old-z", s.Name, "old-a", "old-b"} // the package's own name is an ordinary item
+	s.RPM.Prefixes = []string{"/opt", "/opt", "/usr/local", "/srv"}   // adjacent duplicates are shipped as given
 	for k := 0; k < 4; k++ {
 		s.Deb.Fields.Set(fmt.Sprintf("X-Alias-%d", k), "v")
 		s.IPK.Fields.Set(fmt.Sprintf("X-Alias-%d", k), "v")
